@@ -16,6 +16,11 @@ pub trait Subject {
     fn take_op_rewrite(&mut self) -> Option<Ints> {
         None
     }
+    /// audit of the weak invariant that must survive a panic in user code: per internal list
+    /// `code chain_len index_len` (code 0 = fine); `limit` bounds the walks
+    fn weak_audit(&self, _limit: usize) -> Ints {
+        vec![]
+    }
 }
 
 pub fn opt_v(o: Option<u64>) -> Ints {
@@ -237,4 +242,46 @@ pub fn snap_list<E, S>(c: &caches::RawLRU<TKey, TVal, E, S>, out: &mut Ints) -> 
         out.push(v as i128);
     }
     ok
+}
+
+
+/// The invariant that has to survive a panic in user code (C18): both walks end at the other sentinel
+/// without meeting a freed block, they agree, no node is linked twice, and every index entry points at a
+/// linked node through the key stored in that node.  Nodes that are linked but not indexed are allowed
+/// (they leak).  Returns `code chain_len index_len`: 0 fine, 1 a walk met a freed block (dangling),
+/// 2 a walk did not terminate / sentinels damaged, 3 walks disagree, 4 a node linked twice or a sentinel
+/// linked, 5 an index entry whose node is not linked or freed, 6 an index key not stored in its node,
+/// 7 a node indexed twice.
+pub fn weak_audit_list<E, S>(c: &caches::RawLRU<TKey, TVal, E, S>, limit: usize, out: &mut Ints) {
+    let a = c.verif_audit_checked(limit, &|p| crate::alloc::is_tracked_live(p));
+    let fwd_nodes: Vec<usize> = a.fwd.iter().map(|x| x.0).collect();
+    let mut bwd = a.bwd.clone();
+    bwd.reverse();
+    let mut sorted = fwd_nodes.clone();
+    sorted.sort_unstable();
+    sorted.dedup();
+    let mut idx_nodes: Vec<usize> = a.index.iter().map(|x| x.1).collect();
+    idx_nodes.sort_unstable();
+    let idx_total = idx_nodes.len();
+    idx_nodes.dedup();
+    let code = if a.dangling.is_some() {
+        1
+    } else if !a.walks_terminated || !a.sentinels_closed || a.head == a.tail {
+        2
+    } else if fwd_nodes != bwd {
+        3
+    } else if sorted.len() != fwd_nodes.len() || fwd_nodes.contains(&a.head) || fwd_nodes.contains(&a.tail) {
+        4
+    } else if idx_nodes.len() != idx_total {
+        7
+    } else if a.index.iter().any(|(_, n)| sorted.binary_search(n).is_err() || !crate::alloc::is_tracked_live(*n)) {
+        5
+    } else if a.index.iter().any(|(kaddr, n)| a.fwd.iter().find(|x| x.0 == *n).map(|x| x.1 != *kaddr).unwrap_or(true)) {
+        6
+    } else {
+        0
+    };
+    out.push(code);
+    out.push(a.fwd.len() as i128);
+    out.push(a.index.len() as i128);
 }
